@@ -144,9 +144,9 @@ package eval
 //@ func (*PolicyEngine).getPeer
 //@   requires pe != nil
 //@   ensures [C03,C15] ok: res1 == nil ==> peerOK(res0)
-//@   ensures [C03,C15] pod: (res1 == nil && !isCIDRStr(p) && !isIPStr(p)) ==>
+//@   ensures [C03,C15] pod: (res1 == nil && !isCIDRStr(p) && !isIPv4Str(p)) ==>
 //@         (dyntype(res0, *k8s.PodPeer) && fresh(unwrap(res0, *k8s.PodPeer)) && p in pe.podsMap && unwrap(res0, *k8s.PodPeer).Pod == pe.podsMap[p])
-//@   ensures [C03,C15] ip: (res1 == nil && (isCIDRStr(p) || isIPStr(p))) ==> dyntype(res0, *k8s.IPBlockPeer)
+//@   ensures [C03,C15] ip: (res1 == nil && (isCIDRStr(p) || isIPv4Str(p))) ==> dyntype(res0, *k8s.IPBlockPeer)
 
 //@ pred lruOthersKept(c Ref, key string) = forall k string :: {lruHas(c)[k]} {lruVal(c)[k]} k != key ==>
 //@     ((lruHas(c)[k] ==> old(lruHas(c)[k])) && lruVal(c)[k] == old(lruVal(c)[k]))
@@ -164,7 +164,7 @@ package eval
 // the key under which CheckIfAllowed(src, dst, protocol, port) caches its verdict when both ends are pods with owners
 //@ fun podConnKey(pe *PolicyEngine, src string, dst string, protocol string, port string) string =
 //@     strJoin4(ownerKey(pe.podsMap[src]), ownerKey(pe.podsMap[dst]), protocol, port, "/")
-//@ pred podQuery(pe *PolicyEngine, s string) = !isCIDRStr(s) && !isIPStr(s)
+//@ pred podQuery(pe *PolicyEngine, s string) = !isCIDRStr(s) && !isIPv4Str(s)
 
 //@ func (*PolicyEngine).CheckIfAllowed
 //@   requires pe != nil && pe.cache != nil && pe.cache.cache != nil
@@ -236,3 +236,8 @@ package eval
 //@   modifies *
 //@   modifies PolicyEngine.cache { r | false }, evalCache.cache { r | false }
 //@   ensures [C15] cleared: res == nil ==> (pe.cache.cache != nil ==> (forall k string :: {lruHas(pe.cache.cache)[k]} !lruHas(pe.cache.cache)[k]))
+
+// the node-IP shortcut must never change a verdict: connectivity does not depend on status.hostIP (C17, C01)
+//@ func isPeerNodeIP
+//@   requires peerOK(peer1) && peerOK(peer2)
+//@   ensures [C17,C01,C12] noeffect: !res
